@@ -1,1 +1,121 @@
-//! Deterministic wake-flag executor (filled in with the mux harness).
+//! Deterministic wake-flag executor: a fixed list of slots, each a boxed future with a wake flag.
+//! `run()` polls, in slot order, only the futures whose flag is set, until no flag is set
+//! (quiescence). No runtime, no threads, no timers: a future that is never woken is never polled
+//! again, so a lost wake-up shows as an operation that stays pending.
+
+use std::future::Future;
+use std::pin::Pin;
+use std::sync::Arc;
+use std::sync::atomic::{AtomicBool, AtomicU64, Ordering};
+use std::task::{Context, Poll, Wake, Waker};
+
+/// A wake flag usable as a `Waker`; counts wake-ups.
+#[derive(Debug, Default)]
+pub struct Flag {
+    pub set: AtomicBool,
+    pub wakes: AtomicU64,
+}
+
+impl Wake for Flag {
+    fn wake(self: Arc<Self>) {
+        self.wake_by_ref();
+    }
+    fn wake_by_ref(self: &Arc<Self>) {
+        self.set.store(true, Ordering::SeqCst);
+        self.wakes.fetch_add(1, Ordering::SeqCst);
+    }
+}
+
+impl Flag {
+    #[must_use]
+    pub fn new(initial: bool) -> Arc<Self> {
+        Arc::new(Self { set: AtomicBool::new(initial), wakes: AtomicU64::new(0) })
+    }
+    #[must_use]
+    pub fn waker(self: &Arc<Self>) -> Waker {
+        Waker::from(self.clone())
+    }
+    pub fn take(&self) -> bool {
+        self.set.swap(false, Ordering::SeqCst)
+    }
+    #[must_use]
+    pub fn is_set(&self) -> bool {
+        self.set.load(Ordering::SeqCst)
+    }
+    #[must_use]
+    pub fn count(&self) -> u64 {
+        self.wakes.load(Ordering::SeqCst)
+    }
+}
+
+type BoxFut<T> = Pin<Box<dyn Future<Output = T>>>;
+
+pub struct Slot<T> {
+    pub fut: Option<BoxFut<T>>,
+    pub flag: Arc<Flag>,
+    pub out: Option<T>,
+    pub label: String,
+}
+
+/// Slots producing values of one type `T` (use an enum for heterogeneous futures).
+pub struct Exec<T> {
+    pub slots: Vec<Slot<T>>,
+    pub polls: u64,
+}
+
+impl<T> Default for Exec<T> {
+    fn default() -> Self {
+        Self { slots: vec![], polls: 0 }
+    }
+}
+
+impl<T> Exec<T> {
+    /// Add a future; it is polled at the next `run`. Returns its slot index.
+    pub fn spawn(&mut self, label: &str, fut: impl Future<Output = T> + 'static) -> usize {
+        self.slots.push(Slot { fut: Some(Box::pin(fut)), flag: Flag::new(true), out: None, label: label.into() });
+        self.slots.len() - 1
+    }
+
+    /// Poll woken futures in slot order until none is woken. Returns the indices of the slots that
+    /// completed during this run, in completion order. `max_polls` guards against livelock
+    /// (returns `Err(())` when exceeded).
+    pub fn run(&mut self, max_polls: u64) -> Result<Vec<usize>, ()> {
+        let mut done = vec![];
+        let mut budget = max_polls;
+        loop {
+            let mut any = false;
+            for i in 0..self.slots.len() {
+                let s = &mut self.slots[i];
+                if s.fut.is_none() || !s.flag.take() {
+                    continue;
+                }
+                any = true;
+                if budget == 0 {
+                    return Err(());
+                }
+                budget -= 1;
+                self.polls += 1;
+                let w = s.flag.waker();
+                let mut cx = Context::from_waker(&w);
+                if let Poll::Ready(v) = s.fut.as_mut().expect("future").as_mut().poll(&mut cx) {
+                    s.out = Some(v);
+                    s.fut = None;
+                    done.push(i);
+                }
+            }
+            if !any {
+                return Ok(done);
+            }
+        }
+    }
+
+    #[must_use]
+    pub fn is_pending(&self, i: usize) -> bool {
+        self.slots[i].fut.is_some()
+    }
+
+    /// Drop a pending future (cancellation).
+    pub fn cancel(&mut self, i: usize) {
+        self.slots[i].fut = None;
+    }
+}
